@@ -202,7 +202,9 @@ impl<'p, 's> BottomUpContext<'p, 's> {
         .clone();
     }
 
-    if self.session.store.get_task_output(&node).is_none() { // Task is new: execute it.
+    if self.session.store.get_task_output(&node).is_none() && !self.scheduled.contains(&node) {
+      // Task is new: execute it. A task without output that is scheduled (it was scheduled through a dependency it
+      // recorded before a previous execution of it was aborted) is instead executed, once, from the queue below.
       return self.execute(task, node);
     }
 
@@ -309,6 +311,10 @@ impl<H: BuildHasher + Default> Queue<H> {
   /// Checks whether the queue is not empty.
   #[inline]
   fn is_not_empty(&self) -> bool { !self.vec.is_empty() }
+
+  /// Checks whether `node` is in the queue.
+  #[inline]
+  fn contains(&self, node: &TaskNode) -> bool { self.set.contains(node) }
 
   /// Add a task to the priority queue. Does nothing if the task is already in the queue.
   #[inline]
